@@ -980,9 +980,8 @@ func (d *Driver) FamExt(scriptFile string, maxScripts int) {
 			if a.Flavour == b.Flavour || a.Set != "default" || b.Set != "default" {
 				continue
 			}
-			if a.Flavour != "gogo" && b.Flavour != "gogo" {
-				continue // google v1 and v2 share one descriptor type (protoimpl.ExtensionInfo): not "a different runtime"
-			}
+			// (google v1 and v2 share one descriptor TYPE - protoimpl.ExtensionInfo - but a descriptor generated for the other
+			// runtime's message type is still not this message's extension)
 			m := a.New()
 			own := a.Exts["msg"]
 			_ = csproto.SetExtension(m, own, d.extGoValue(a, own, "msg", 1))
@@ -1000,6 +999,24 @@ func (d *Driver) FamExt(scriptFile string, maxScripts int) {
 				e.Geterr = b2i(gerr != nil)
 				serr := csproto.SetExtension(m, foreign, d.extGoValue(b, foreign, "string", 1))
 				e.Seterr = b2i(serr != nil)
+				// the other runtime's descriptor of the very extension that is set (same field number): still not this message's
+				same := b.Exts["msg"]
+				if csproto.HasExtension(m, same) {
+					e.Has0 = 0
+				}
+				if _, gerr2 := csproto.GetExtension(m, same); gerr2 == nil {
+					e.Geterr = 0
+				}
+				if csproto.SetExtension(m, same, d.extGoValue(b, same, "msg", 2)) == nil {
+					e.Seterr = 0
+				}
+				// ClearExtension is documented to panic on invalid parameters; whatever it does, the message keeps its own extension
+				for _, x := range []interface{}{foreign, same} {
+					func() {
+						defer func() { _ = recover() }()
+						csproto.ClearExtension(m, x)
+					}()
+				}
 			})
 			if e.St == "" {
 				e.St = "ok"
